@@ -394,7 +394,7 @@ static void teardown(int st)
 	(void)st;
 }
 
-static int g_pol; static uint64_t g_seed; static int g_depth; static char g_replay[1 << 16];
+static int g_pol; static uint64_t g_seed; static int g_depth; static char g_replay[1 << 18];
 
 static void vh_op(int argc, char **argv)
 {
@@ -440,6 +440,7 @@ static void vh_op(int argc, char **argv)
 		else vs_policy_replay(g_replay);
 		vs_set_max_steps(4000);
 		int st = vs_run();
+		if (st != VS_OK) vh_request_restart();
 		vs_print(stdout);
 		teardown(st);
 		return;
